@@ -112,7 +112,7 @@ _tlc_counter = [0]
 
 
 def tlc(module, cfg=None, env=None, workers=None, timeout=900, simulate=None, depth=None,
-        extra=(), xmx="4g", deadlock=False, coverage=False, dfs=False, allow=(0,), xss=None, cwd=None):
+        extra=(), xmx="4g", deadlock=False, coverage=False, dfs=False, allow=(0,), xss="64m", cwd=None):
     """Run TLC on spec/<module>.tla with spec/<cfg>.  Returns TlcResult.
     allow: acceptable exit codes; anything else raises MachineryError (a broken model is never a verdict)."""
     _tlc_counter[0] += 1
@@ -202,13 +202,16 @@ REPO_SRC_GROUPS = {
 BASE_FLAGS = ["-std=c++17", "-DNDEBUG", "-DBITSERIALIZER_VERIF", "-g0", "-w"]
 
 
-def _prune_cache(keep=3):
+def _prune_cache(keep=10, min_age_s=3 * 3600):
+    """Removes old build directories (never a recent one: concurrent checks may be building into it)."""
     if not os.path.isdir(CACHE):
         return
     ds = [os.path.join(CACHE, d) for d in os.listdir(CACHE) if os.path.isdir(os.path.join(CACHE, d))]
     ds.sort(key=lambda d: os.path.getmtime(d), reverse=True)
+    now = time.time()
     for d in ds[keep:]:
-        shutil.rmtree(d, ignore_errors=True)
+        if now - os.path.getmtime(d) > min_age_s:
+            shutil.rmtree(d, ignore_errors=True)
 
 
 def build(name, srcs, defines=(), groups=("msgpack", "csv", "common"), libs=(), opt="-O1",
@@ -407,7 +410,7 @@ def main_wrapper(fn):
 # ----------------------------------------------------------------------------------------------
 # Trace validation in shards (each shard = one TLC process evaluating the trace spec on one file)
 # ----------------------------------------------------------------------------------------------
-def validate_traces(module, lines, cfg=None, shards=None, timeout=900, env=None, xmx="3g", xss=None):
+def validate_traces(module, lines, cfg=None, shards=None, timeout=900, env=None, xmx="3g", xss="64m"):
     """lines: list of ndjson strings (one trace/record each).  Returns (checked, bad_verdicts).
     The trace spec must print <<"CHECKED", {n}>> and <<"BAD", {...}>> records."""
     if not lines:
